@@ -1,2 +1,26 @@
 """Named predicates over violation witnesses; see known.py."""
 from .known import matcher  # noqa: F401
+
+
+MAXCOL = 16384
+
+
+@matcher('c06_simplify_whole_row')
+def c06_simplify_whole_row(w, v):
+    """simplify() enumerates columns from n1, which is 0 for whole rows."""
+    if not v['sig'].startswith('ranges.simplify:raised:InvalidRangeName'):
+        return False
+    case = w.get('case') or {}
+    areas = (case.get('a') or []) + (case.get('b') or [])
+    return any(a[1] == 1 and a[3] == MAXCOL for a in areas)
+
+
+@matcher('c06_paren_intersection_lost')
+def c06_paren_intersection_lost(w, v):
+    """`(a1,a2) (b1,b2)`: the space between `)` and `(` is swallowed and the
+    two groups are read as two function arguments (a union)."""
+    if not v['sig'].startswith('formula:and:') or \
+            not v['sig'].endswith(':multi-both'):
+        return False
+    f = w.get('formula') or ''
+    return ') (' in f and w.get('observed') == w.get('as_two_arguments')
